@@ -193,6 +193,13 @@ pub fn gen(rng: &mut Rng, tier: Tier, out: &mut Vec<String>) {
         out.push(format!("frgb2hsl {} {} {}", h32(c[0]), h32(c[1]), h32(c[2])));
         out.push(format!("fhsl2rgb {} {} {}", h32(rng.unit()), h32(rng.unit()), h32(rng.unit())));
     }
+    // fully (or almost fully) saturated HSL over the whole lightness range: `l - c/2` and `c + m` cancel
+    // to 0 resp. 1 only up to rounding (to_rgb must stay in range and must not trip its own assertion)
+    for i in 0..(if q { 3000 } else { 100_000 }) {
+        let s = match i % 4 { 0 | 1 => 1.0, 2 => ulp_step(1.0, -(1 + rng.below(3) as i32)), _ => 1.0 - rng.unit() * 1e-3 };
+        let l = match i % 3 { 0 => rng.unit() * 0.5, 1 => 0.5 + rng.unit() * 0.5, _ => (rng.below(1001) as f32) / 1000.0 };
+        out.push(format!("fhsl2rgb {} {} {}", h32(rng.unit()), h32(s), h32(l)));
+    }
     // extremely dark / light colours: the saturation denominator cancels
     for i in 0..(if q { 600 } else { 20_000 }) {
         let e = [1e-3f32, 1e-4, 1e-5, 1e-6, 1e-7, 1e-8, 1e-10, 1e-20, 1e-38][i % 9];
